@@ -246,6 +246,14 @@ def r7(ctx):
            site=body.get("def_span"))
 
 
+    # ... on every path: no exit of set_mask bypasses the compaction loop (an early return "nothing to do" leaves entries emptied by the previous
+    # pass in front of live ones, and next() stops at the first entry without a masked destination)
+    rets_ = [bi for bi, blk in enumerate(body["blocks"]) if blk["t"]["k"] == "ret" and not blk.get("cleanup")]
+    bypass = [bi for bi in rets_ for h in loops if not c.dominates(h, bi)]
+    ctx.ob("set_mask compacts on every path", len(loops) == 1 and bool(rets_) and not bypass, f"set_mask can return (bb{bypass[:2]}) without running its compaction loop", site=body.get("def_span"),
+           sample={"returns": len(rets_)})
+
+
 @rule("C10.R8", "remove_move scans the whole entry list")
 def r8(ctx):
     P = ctx.P
